@@ -10,6 +10,7 @@ mod common;
 mod descr;
 mod disas;
 mod engine;
+mod lift;
 mod loader;
 mod operand;
 mod panics;
@@ -70,6 +71,7 @@ fn main() {
     out.insert("loader".into(), loader::extract(&mut cx));
     out.insert("panics".into(), panics::extract(&mut cx));
     out.insert("disas".into(), disas::extract(&mut cx));
+    out.insert("lift".into(), lift::extract(&mut cx));
     out.insert("failures".into(), json!(cx.failures));
     let v = Value::Object(out);
     std::fs::write(&args[2], serde_json::to_string_pretty(&v).unwrap()).unwrap();
